@@ -64,6 +64,13 @@ def run(ctx):
     ra.expect(len(sl) == 1 and am(sl[0]) is True, 'serve:slot-emptied', sl[0].loc if sl else f.where(),
               'the slot of the served request must be emptied so that the refill replaces it', note='AM: array_of_requests[storage1] = MPI_REQUEST_NULL')
 
+    # the callback reads the buffer of the completed receive: restarting that receive hands the buffer back to MPI, which may
+    # copy the next (unexpected-queue) message of the tag into it at once - the restart must follow the callback
+    amcb = [e for e in f.events() if e.kind == 'call' and e.fn is None and e.callee is not None and e.callee.k == 'mem' and e.callee.n == 'fct' and am(e) is True]
+    ra.expect(len(amcb) == 1 and bool(st) and f.ordered(amcb[0], st[0]), 'serve:restart-after-callback', st[0].loc if st else f.where(),
+              'the persistent receive must be restarted only after the tag callback has consumed its buffer: restarted first, MPI may overwrite the message the callback is about to read (lost / duplicated / corrupted delivery)',
+              note='AM: callback(buf) runs before MPI_Start of the same receive')
+
     # ---------------------------------------------------------------- R14.b
     f = u.func('mpi_no_thread_progress')
     if f is None:
